@@ -21,7 +21,7 @@ pub static PROP: Prop = Prop {
     title: "Every operation returns a well-formed, correctly typed diagram",
     check,
     max_tape: (700, 1100),
-    cases: (40_000, 800_000),
+    cases: (120_000, 1_200_000),
     both_profiles: true,
     rule: "(60%) a pipeline of 1..4 (thorough 1..6) public operations applied to the result of the previous one, starting from a constructor (identity, twist, singleton, tensor_operations, spider, half_spider, generated diagram): compose on either side with a generated partner of the matching type, tensor on either side, dagger, strict functor / optic / adapt with generated tables, lax round trip, lax compose / tensor_assign / quotient path, vertex coequalisation; after every step the value is re-checked by the deep well-formedness checker on raw fields and its type is compared with the promised one; (40%) raw nested data for the checked constructors of finite functions, hypergraphs and open hypergraphs, well-formed or with one planted flaw at a boundary value (acceptance iff the documented conditions hold; an Err names a false condition); non-trivial = pipelines of depth >= 2 with >= 1 hyperedge, planted-flaw cases, accepted raw cases with >= 1 edge; distinct = hash of the generated data",
     assumptions: &["components are built through their own checked constructors, never by struct literals that bypass them"],
@@ -120,7 +120,7 @@ fn pipeline(t: &mut Tape, ctx: &mut Ctx) -> CheckResult {
             break; // keep sizes bounded
         }
         let what: String;
-        match t.choice(12) {
+        match t.choice(14) {
             0 => {
                 let tl = type_list(t, al, 3);
                 let g = gen::diagram_with_boundary(t, &sz, al, &b, &tl, ctx);
@@ -210,6 +210,28 @@ fn pipeline(t: &mut Tape, ctx: &mut Ctx) -> CheckResult {
                 b = g.target_type();
                 a = h.source_type().into_iter().chain(a).collect();
                 b = h.target_type().into_iter().chain(b).collect();
+            }
+            12 | 13 => {
+                // lax functors: through the strict machinery (dyn_functor) or natively (+ quotient)
+                use open_hypergraphs::lax::functor::{try_define_map_arrow, Functor as LaxFunctor};
+                let keys = gen::op_keys(&[&cur_d]);
+                let table = gen::functor_table(t, al, al, &keys, ctx);
+                let native = t.chance(1, 2);
+                what = format!("lax functor ({}) {}", if native { "native" } else { "dyn" }, table.pretty());
+                let l = LOH::from_strict(cur.clone());
+                let lf = LFunctor(table.clone());
+                let mut img = if native {
+                    try_define_map_arrow(&lf, &l).ok_or_else(|| ctx.fail("output-well-formed", "try_define_map_arrow returned None on a quotient-free diagram"))?
+                } else {
+                    lf.map_arrow(&l)
+                };
+                from_lax(&img).map_err(|e| ctx.fail("output-well-formed", format!("lax functor image: {e}")))?;
+                img.quotient().map_err(|_| ctx.fail("output-well-formed", "lax functor image cannot be quotiented"))?;
+                from_lax(&img).map_err(|e| ctx.fail("output-well-formed", format!("quotiented lax functor image: {e}")))?;
+                ensure!(ctx, crate::labels::unobs(&Arrow::source(&img)) == table.objects(&a) && crate::labels::unobs(&Arrow::target(&img)) == table.objects(&b), "output-type", "lax functor image has the wrong type");
+                cur = img.to_strict();
+                a = table.objects(&a);
+                b = table.objects(&b);
             }
             10 => {
                 // coequalise vertices along equal-labelled pairs
